@@ -144,3 +144,37 @@ where
     }
     ret
 }
+
+// ---- deterministic cheap stand-ins for the blake3-based aggregate hashes --------------------------
+// Agreement checks (recomputation by the harness == value recorded by the code) need a deterministic
+// function of the full argument list, not cryptographic strength; blake3 itself is C/asm FFI.
+fn mix(acc: u64, a: u64, b: u64) -> u64 {
+    (acc.rotate_left(7) ^ a.wrapping_mul(0x9e37_79b9_7f4a_7c15)).wrapping_add(b).rotate_left(3)
+}
+pub fn cas_node_hash_stub(chunks: &[(MerkleHash, usize)]) -> MerkleHash {
+    let mut acc = 0x1234u64;
+    let mut i = 0;
+    while i < chunks.len() {
+        acc = mix(acc, chunks[i].0[0] ^ chunks[i].0[1].rotate_left(17), chunks[i].1 as u64);
+        i += 1;
+    }
+    MerkleHash::from([7, acc, chunks.len() as u64, 1])
+}
+pub fn file_node_hash_stub(chunks: &[(MerkleHash, usize)], salt: &[u8; 32]) -> merkledb::error::Result<MerkleHash> {
+    let mut acc = 0x5678u64 ^ salt[0] as u64;
+    let mut i = 0;
+    while i < chunks.len() {
+        acc = mix(acc, chunks[i].0[0] ^ chunks[i].0[1].rotate_left(17), chunks[i].1 as u64);
+        i += 1;
+    }
+    Ok(MerkleHash::from([9, acc, chunks.len() as u64, salt[31] as u64]))
+}
+pub fn range_hash_stub(chunks: &[MerkleHash]) -> MerkleHash {
+    let mut acc = 0x9abcu64;
+    let mut i = 0;
+    while i < chunks.len() {
+        acc = mix(acc, chunks[i][0] ^ chunks[i][1].rotate_left(17), 1);
+        i += 1;
+    }
+    MerkleHash::from([5, acc, chunks.len() as u64, 1])
+}
